@@ -165,6 +165,12 @@ func checkC01(c *Ctx) {
 		emitFacts(c, res, "R2.length", "app.accept", "app.size")
 	}
 	for _, s := range frameSpecs {
+		if s.Type == "FCtrl" || s.Type == "FHDR" {
+			// not injective by design (ClassB and FPending share a wire bit, FCnt travels with 16 of its 32 bits): their
+			// round trip is decided inside whole frames by R1, where the decoded counter is compared modulo 2^16 and
+			// the shared bit by direction; their absolute layout is C06's
+			continue
+		}
 		res := runCodec(c, s)
 		r.Saw("types analysed", s.name())
 		emitFacts(c, res, "R3.fixed", "inv", "enc.size", "undecided")
